@@ -850,7 +850,8 @@ class Builder(object):
                     index += 1
 
                 elif connective == 'per':
-                    data, index = self.parseDirect(tokens, index)
+                    # the other clauses of server may follow the data
+                    data, index = self.parseDirect(tokens, index, ends=('rx', 'tx'))
                     init.update(data)
 
                 elif connective == 'for':
@@ -3958,7 +3959,7 @@ class Builder(object):
 
     #----------------------------
 
-    def parseDirect(self, tokens, index):
+    def parseDirect(self, tokens, index, ends=()):
         """Parse Direct data address
            returns ordered dictionary of fields (keys) and values
            if no field provided then uses default field = 'value'
@@ -3966,6 +3967,8 @@ class Builder(object):
            parms:
               tokens = list of tokens for command
               index = current index into tokens
+              ends = non reserved words that also end the data such as the
+                     connectives of the other clauses of the command
 
            returns:
               data ordered dict
@@ -3985,10 +3988,11 @@ class Builder(object):
               token 'into'  (put)
 
         """
+        ends = Reserved + list(ends)  # words that end the data
         data = odict()
         if index == (len(tokens) - 1): #only one more token so it must be value
             value = tokens[index]
-            if value in Reserved:  # ending token not valid value
+            if value in ends:  # ending token not valid value
                 msg = "ParseError: Encountered reserved '{0}' instead of value.".format(value)
                 raise excepting.ParseError(msg, tokens, index)
             index +=1 #eat token
@@ -3996,12 +4000,12 @@ class Builder(object):
 
         else: #more than one so first may be field and second token may be value
             field = tokens[index]
-            if field in Reserved:  # ending token not valid field
+            if field in ends:  # ending token not valid field
                 msg = "ParseError: Encountered reserved '{0}' instead of field.".format(field)
                 raise excepting.ParseError(msg, tokens, index)
             index += 1
             value = tokens[index]
-            if value in Reserved: #second reserved token so first token was value
+            if value in ends: #second reserved token so first token was value
                 value = field
                 field = 'value' #default field
             else: #first token was field and second value
@@ -4013,14 +4017,14 @@ class Builder(object):
         #parse rest if any
         while index < len(tokens): #must be in pairs unless first is ending token
             field = tokens[index]
-            if field in Reserved: #ending token so break
+            if field in ends: #ending token so break
                 break
 
             field = StripQuotes(field)
             index += 1 #eat token
 
             value = tokens[index]
-            if value in Reserved:  # ending token before valid value
+            if value in ends:  # ending token before valid value
                 msg = "ParseError: Encountered reserved '{0}' instead of value.".format(value)
                 raise excepting.ParseError(msg, tokens, index)
             index += 1
